@@ -1,8 +1,15 @@
 import Mimium.Model.Pretty
 import Mimium.Model.NewlineRule
+import Mimium.Model.CstPrintSpec
+import Mimium.Model.CstGrammar
+import Mimium.Model.LexerIO
 /-! `drv_c14`: line protocol driver for C14 (layout-engine model).
 Input line: `width \t tree [\t anything]`; output line: hex of the UTF-8 bytes of `render width tree`, then
 `\t` number of newline pieces `\t` number of content pieces.
+`F \t hex(src) \t classes \t widths \t cfgs [\t show]`: the ported formatter (tokenizer + preparse + grammar + `Model/CstPrint.lean` +
+layout engine) on a source text; `widths` = `i:w,…` display width of every non-ASCII raw token (`-` if none), `cfgs` = `width:indent,…`;
+answer `ok \t fnv64 of the output per configuration \t #leaves \t keepsAll \t kind of the first node outside the class \t content = expected` (with `show`: hex of the outputs instead of hashes) or `ERR` when the
+ported parser reports a syntax error (the real `pretty_print` returns `Err`).
 Tree syntax (no spaces): `N` nil, `H` hardline, `T<len>:<hex>.` text, `A(l,r)` append, `F(b,f)` flat_alt,
 `G(d)` group, `E<off>(d)` nest (offset may be negative). -/
 open Mimium.Pretty
@@ -96,8 +103,60 @@ def nlLine (cls bits : String) : String :=
     s!"{sh}\t{if sh.contains '!' then 1 else 0}"
   | none => "bad-input"
 
+/-- FNV-1a, 64 bit, over the UTF-8 bytes -/
+def fnv64 (s : String) : UInt64 :=
+  s.toUTF8.foldl (fun h b => (h ^^^ b.toUInt64) * 0x100000001b3) 0xcbf29ce484222325
+
+def hex64 (h : UInt64) : String :=
+  String.ofList ((List.range 16).map fun i => hexDigit ((h >>> (UInt64.ofNat (60 - 4 * i))).toNat % 16))
+
+open Mimium Mimium.Lexer Mimium.LexerIO in
+/-- the ported `pretty_print` on a text -/
+def fmtLine (hex cls wids cfgs : String) (shw : Bool) : String :=
+  match decodeHex hex with
+  | none => "bad-input"
+  | some s =>
+    let C := parseClasses cls
+    let ls := splitProj none (lex C genTables s)
+    let ks := ls.map (·.kind) ++ [Gen.Kind.Eof]
+    let lens := ls.map (fun l => utf8Len l.text) ++ [0]
+    let texts : Array String := (ls.map fun l => String.ofList l.text).toArray
+    let wmap : List (Nat × Nat) := (wids.splitOn ",").filterMap fun e =>
+      match e.splitOn ":" with
+      | [a, b] => match a.toNat?, b.toNat? with
+        | some a, some b => some (a, b)
+        | _, _ => none
+      | _ => none
+    let warr : Array (Option Nat) := wmap.foldl (fun a e => a.setIfInBounds e.1 (some e.2)) (Array.replicate texts.size none)
+    let txt := fun (i : Nat) =>
+      let t := texts.getD i ""
+      (match warr.getD i none with | some w => w | none => t.length, t)
+    let st := Grammar.parseTokens ks lens
+    if st.oof then "OOF"
+    else if !st.errs.isEmpty then "ERR"
+    else match st.b.root with
+      | none => "NOROOT"
+      | some root =>
+        let pre := Preparse.preparse ks
+        let sd := CstPrint.formatS ks pre root
+        let outs := (cfgs.splitOn ",").filterMap fun e =>
+          match e.splitOn ":" with
+          | [w, i] => match w.toNat?, i.toNat? with
+            | some w, some i => some (CstPrint.formatText ks pre root i txt w)
+            | _, _ => none
+          | _ => none
+        let body := ",".intercalate (outs.map fun o => if shw then toHex o else hex64 (fnv64 o))
+        let cx : CstPrint.Ctx := ⟨ks.toArray, pre⟩
+        let keeps := CstPrint.keepsAll cx root
+        let same := CstPrint.content cx sd == CstPrint.expected cx root
+        let loss := match CstPrint.firstLoss cx root with
+          | some k => Gen.skNames.getD k "?"
+          | none => "-"
+        s!"ok\t{body}\t{sd.leaves.length}\t{if keeps then 1 else 0}\t{loss}\t{if same then 1 else 0}"
+
 def c14Line (line : String) : String :=
   match line.splitOn "\t" with
+  | "F" :: hex :: cls :: wids :: cfgs :: rest => fmtLine hex cls wids cfgs (rest.head? == some "show")
   | "P" :: cls :: bits :: _ => nlLine cls bits
   | w :: t :: _ =>
     match w.toNat?, parseDoc t.toList with
